@@ -292,8 +292,10 @@ def run_property(prop: Property, tier='quick', seed=0, only=None):
         if name in seen_names:
             continue
         if not e.get('bounded'):
-            seen_names.add(name)        # (bounded failures: every distinct failing input is looked at, so that a
-        replay = dict(                  #  known finding does not hide a different failure under the same label)property=prop.id, obligation=name, site=e.get('site', ''),
+            # (bounded failures: every distinct failing input is looked at, so that a known finding does not hide a
+            #  different failure under the same label)
+            seen_names.add(name)
+        replay = dict(property=prop.id, obligation=name, site=e.get('site', ''),
                       counter_model=e.get('data'), solver='z3 ' + z3.get_version_string())
         reproduced = False
         if e.get('bounded'):
@@ -306,14 +308,43 @@ def run_property(prop: Property, tier='quick', seed=0, only=None):
             replay['detail'] = e.get('site')
         elif c is not None and isinstance(e.get('data'), dict) and '@error' not in e['data']:
             try:
-                cr = run_concrete(c, e['data'], prop.factories, prop.abstracters, check_requires=False)
+                cghost = getattr(c, 'concrete_ghost', None)
+                cr = run_concrete(c, e['data'], prop.factories, prop.abstracters, check_requires=False,
+                                  concrete_ghost=cghost)
                 replay['cpython_outcome'] = repr(cr.outcome)
                 replay['cpython_failed_clauses'] = cr.failed
                 replay['cpython_post_state'] = cr.post
                 short = name.split('/', 1)[1] if '/' in name else name
-                reproduced = any(f == name or f.endswith(short) for f in cr.failed) or \
-                    (bool(cr.failed) and ('yield' in name or 'acquire' in name or 'call:' in name
-                                          or 'loop' in name))
+
+                def hit(cr_):
+                    return any(f == name or f.endswith(short) for f in cr_.failed) or \
+                        (bool(cr_.failed) and ('yield' in name or 'acquire' in name or 'call:' in name
+                                               or 'loop' in name))
+                reproduced = hit(cr)
+                if not reproduced and getattr(c, 'replay_candidates', None) is not None:
+                    # the solver's model of a quantified formula need not be an input of the real function (ghost
+                    # sequences are existentially chosen); look for a real failing input of the SAME clause among the
+                    # contract's small candidate inputs, each run on the real code
+                    tried = 0
+                    for cand in c.replay_candidates():
+                        tried += 1
+                        if tried > 20000:
+                            break
+                        try:
+                            cr2 = run_concrete(c, cand, prop.factories, prop.abstracters, check_requires=True,
+                                               concrete_ghost=cghost)
+                        except Exception:   # noqa
+                            continue
+                        if cr2.pre_ok and hit(cr2):
+                            reproduced = True
+                            replay['failing_input'] = cand
+                            replay['cpython_outcome'] = repr(cr2.outcome)
+                            replay['cpython_failed_clauses'] = cr2.failed
+                            replay['candidate_search'] = f'solver model did not replay; input {tried} of the candidate ' \
+                                                         f'enumeration fails the same clause on the real code'
+                            break
+                    else:
+                        replay['candidate_search'] = f'{tried} candidate inputs tried on the real code, none fails the clause'
                 replay['how'] = 'counter-model rebuilt as real objects; real function run under CPython; ' \
                                 'contract clauses evaluated on the observed pre/post state'
             except Exception as exc:    # noqa
